@@ -26,7 +26,7 @@ type c08 struct {
 	rts  map[uint32]bool // recovery time stamps seen in this history
 }
 
-var c08Est = []string{"normal(PDR1 with UE IP)", "PDR1 with + PDR2 without UE IP", "no PDR", "without Node ID", "without CP F-SEID", "for unknown node id"}
+var c08Est = []string{"normal(PDR1 with UE IP)", "PDR1 with + PDR2 without UE IP", "no PDR", "without Node ID", "without CP F-SEID", "for unknown node id", "PDR1 + PDR2 with UE IPs, PDR2's PDI encoded before its PDR ID"}
 
 func c08Spec(tier, scenario string) seqx.Spec {
 	depth := 7
@@ -173,6 +173,10 @@ func (c *c08) Apply(e seqx.Event) seqx.StepResult {
 		case 1:
 			ops = append(ops, smf.RuleOp{Verb: 'C', Kind: 'P', ID: 1, FAR: 1, UEIP: "10.60.0.1", MInfo: -1}, smf.RuleOp{Verb: 'C', Kind: 'P', ID: 2, FAR: 1, MInfo: -1})
 			ue[1] = "10.60.0.1"
+		case 6:
+			ops = append(ops, smf.RuleOp{Verb: 'C', Kind: 'P', ID: 1, FAR: 1, UEIP: "10.60.0.1", MInfo: -1},
+				smf.RuleOp{Verb: 'C', Kind: 'P', ID: 2, FAR: 1, UEIP: "10.60.0.2", PDIFirst: true, MInfo: -1})
+			ue[1], ue[2] = "10.60.0.1", "10.60.0.2"
 		case 3:
 			node = ""
 		case 4:
